@@ -14,7 +14,9 @@
 //   D3 ...                        differences between 2nd and 3rd generation models (must be none, bit-exact)
 //   XML <nbytes>\n<bytes>\n       saved text of the first generation
 //   XML2 <nbytes>\n<bytes>\n      saved text of the second generation when it differs
+//   J <joint> <field> <%a values>  (dump == 3 only) selected joint arrays of the re-compiled model
 //   END
+//   N <id> <prec> <n> <n doubles as %a>   numeric-format tie: prints "TXT <text of the data attribute>"
 #include <mujoco/mujoco.h>
 
 #include <cmath>
@@ -93,6 +95,7 @@ static void RunCase(const char* id, int prec, int dump, mjSpec* s1) {
     }
     // second generation
     bool fix = false; C32Cmp c3; std::string err2;
+    c3.mode = c.mode; c3.rtol = c.rtol; c3.atol = c.atol;
     bool gen2 = Save(s2, x2, err2);
     if (gen2) {
       fix = (x1 == x2);
@@ -109,7 +112,28 @@ static void RunCase(const char* id, int prec, int dump, mjSpec* s1) {
     std::printf("FIX %d\n", fix ? 1 : 0);
     PrintDiffs("D3", c3);
   } while (0);
-  if (!x1.empty() && (dump == 1 || (dump == 0 && bad))) {
+  if (dump == 3 && m2) {
+    for (int j = 0; j < m2->njnt; j++) {
+      const char* jn = m2->names + m2->name_jntadr[j];
+      int dof = m2->jnt_dofadr[j];
+      auto pr = [&](const char* f, const mjtNum* v, int n) {
+        std::printf("J %s %s", jn, f);
+        for (int k = 0; k < n; k++) std::printf(" %a", v[k]);
+        std::printf("\n");
+      };
+      pr("margin", m2->jnt_margin + j, 1);
+      pr("armature", m2->dof_armature + dof, 1);
+      pr("frictionloss", m2->dof_frictionloss + dof, 1);
+      mjtNum st[3] = {m2->jnt_stiffness[j], m2->jnt_stiffnesspoly[mjNPOLY*j], m2->jnt_stiffnesspoly[mjNPOLY*j+1]};
+      pr("stiffness", st, 3);
+      mjtNum da[3] = {m2->dof_damping[dof], m2->dof_dampingpoly[mjNPOLY*dof], m2->dof_dampingpoly[mjNPOLY*dof+1]};
+      pr("damping", da, 3);
+      pr("solreflimit", m2->jnt_solref + mjNREF*j, mjNREF);
+      pr("solimplimit", m2->jnt_solimp + mjNIMP*j, mjNIMP);
+      pr("user", m2->jnt_user + m2->nuser_jnt*j, m2->nuser_jnt);
+    }
+  }
+  if (!x1.empty() && (dump == 1 || dump == 3 || (dump == 0 && bad))) {
     PrintXml("XML", x1);
     if (!x2.empty() && x2 != x1) PrintXml("XML2", x2);
   }
@@ -159,6 +183,27 @@ int main() {
         std::printf("CASE %s fail:mju_error\nMSG %s\nEND\n", id, OneLine(mjg_last_error).c_str());
         s = nullptr;
       }
+    } else if (op[0] == 'N') {
+      // prec holds the precision, dump the number of values
+      std::vector<double> v((size_t)dump);
+      for (int i = 0; i < dump; i++) if (std::scanf("%la", &v[(size_t)i]) != 1) return 2;
+      s = mj_makeSpec();
+      mjsNumeric* num = mjs_addNumeric(s);
+      mjs_setName(num->element, "n");
+      mjs_setDouble(num->data, v.data(), dump);
+      num->size = dump;
+      mjModel* m = mj_compile(s, nullptr);
+      std::string x, err;
+      mujoco::_mjPRIVATE__set_xml_precision(prec);
+      bool ok = m && Save(s, x, err);
+      mujoco::_mjPRIVATE__set_xml_precision(6);
+      std::printf("CASE %s %s\n", id, ok ? "ok" : "fail:save");
+      if (ok) {
+        size_t a = x.find("data=\""), b = a == std::string::npos ? a : x.find('"', a + 6);
+        std::printf("TXT %s\n", a == std::string::npos ? "" : x.substr(a + 6, b - a - 6).c_str());
+      }
+      std::printf("END\n");
+      if (m) mj_deleteModel(m);
     } else {
       return 2;
     }
